@@ -47,14 +47,106 @@ theorem floor_306001 (m : Int) : pfloor (30.6001 * (ofInt m + 1.0)) = (306001 * 
   apply rat_floor_eq_div _ _ (by norm_num)
   norm_num; ring
 
-theorem compute_jde_int (y m d : Int) : compute_jde y m (ofInt d) = (jdnI y m d : ℚ) - 1 / 2 := by
-  unfold compute_jde jdnI
+/-- The Gregorian correction `b` of `_compute_jde` on integers (0 for a Julian-calendar date). -/
+def corrI (y m d : Int) : Int :=
+  let y' := if m ≤ 2 then y - 1 else y
+  let m' := if m ≤ 2 then m + 12 else m
+  if isJulianI y' m' d then 0 else 2 - y' / 100 + y' / 100 / 4
+
+/-- Day number that `_compute_jde` produces for ANY triple: `jdnI`, with the Gregorian correction taken
+    back when the result lies before the reform (`if jde < 2299160.5: jde -= b`).  For every date of
+    the civil calendar this is `jdnI` (`jdnP_eq`); it differs only on 5..14 October 1582. -/
+def jdnP (y m d : Int) : Int :=
+  if jdnI y m d < 2299161 then jdnI y m d - corrI y m d else jdnI y m d
+
+/-- the two values `_compute_jde` computes before its last test: `jde` and `b` -/
+def preGuard (y m : Int) (d : ℚ) : ℚ × ℚ :=
+  let (y, m) := if m ≤ 2 then (y - 1, m + 12) else (y, m)
+  let a : Int := pfloor (ofInt y / 100.0)
+  let b : ℚ := if !(is_julian y m (ofInt (pfloor d))) then 2.0 - ofInt a + ofInt (pfloor (ofInt a / 4.0)) else 0.0
+  (ofInt (pfloor (365.25 * (ofInt y + 4716.0)) + pfloor (30.6001 * (ofInt m + 1.0))) + d + b - 1524.5, b)
+
+theorem compute_jde_guard (y m : Int) (d : ℚ) :
+    compute_jde y m d = if (preGuard y m d).1 < 2299160.5 then (preGuard y m d).1 - (preGuard y m d).2
+      else (preGuard y m d).1 := by
+  unfold compute_jde preGuard plt
+  by_cases hm : m ≤ 2 <;> simp only [hm, if_true, if_false, decide_eq_true_eq]
+
+theorem preGuard_frac (y m d : Int) (f : ℚ) (hfl : pfloor ((d : ℚ) + f) = d) :
+    preGuard y m ((d : ℚ) + f) = ((jdnI y m d : ℚ) - 1 / 2 + f, (corrI y m d : ℚ)) := by
+  unfold preGuard jdnI corrI
   by_cases hm : m ≤ 2
-  · simp only [hm, if_true, pfloor_ofInt, is_julian_int, floor_y100, floor_a4, floor_36525, floor_306001]
+  · simp only [hm, if_true, hfl, is_julian_int, floor_y100, floor_a4, floor_36525, floor_306001]
     cases isJulianI (y - 1) (m + 12) d <;> norm_num [ofInt] <;> ring
-  · simp only [hm, if_false, pfloor_ofInt, is_julian_int, floor_y100, floor_a4, floor_36525, floor_306001]
+  · simp only [hm, if_false, hfl, is_julian_int, floor_y100, floor_a4, floor_36525, floor_306001]
     cases isJulianI y m d <;> norm_num [ofInt] <;> ring
 
+theorem guard_iff (N : Int) (f : ℚ) (h0 : 0 ≤ f) (h1 : f < 1) :
+    ((N : ℚ) - 1 / 2 + f < 2299160.5) ↔ N < 2299161 := by
+  constructor
+  · intro h
+    have : (N : ℚ) < 2299161 := by norm_num at h ⊢; linarith
+    exact_mod_cast this
+  · intro h
+    have : (N : ℚ) ≤ 2299160 := by exact_mod_cast (by omega : N ≤ 2299160)
+    norm_num; linarith
+
+/-- General form, for ANY triple and day fraction: `_compute_jde` is `jdnP - 1/2 + f`. -/
+theorem compute_jde_frac_gen (y m d : Int) (f : ℚ) (h0 : 0 ≤ f) (h1 : f < 1) :
+    compute_jde y m ((d : ℚ) + f) = (jdnP y m d : ℚ) - 1 / 2 + f := by
+  have hfl : pfloor ((d : ℚ) + f) = d := by
+    unfold pfloor
+    rw [rat_floor_eq_floor, Int.floor_eq_iff]
+    constructor <;> linarith
+  rw [compute_jde_guard, preGuard_frac y m d f hfl]
+  simp only [guard_iff _ f h0 h1]
+  unfold jdnP
+  split_ifs <;> push_cast <;> ring
+
+theorem compute_jde_int_gen (y m d : Int) : compute_jde y m (ofInt d) = (jdnP y m d : ℚ) - 1 / 2 := by
+  have := compute_jde_frac_gen y m d 0 le_rfl (by norm_num)
+  simpa [ofInt] using this
+
+/-- The last test of `_compute_jde` never fires for a date outside 5..14 October 1582: a date the
+    code takes as Gregorian lies on or after 15 October 1582, whose day number is 2299161. -/
+theorem jdnP_eq (y m d : Int) (hm1 : 1 ≤ m) (hm12 : m ≤ 12) (hd1 : 1 ≤ d)
+    (hgap : ¬ (y = 1582 ∧ m = 10 ∧ 5 ≤ d ∧ d ≤ 14)) : jdnP y m d = jdnI y m d := by
+  unfold jdnP
+  split_ifs with hlt
+  · have hc : corrI y m d = 0 := by
+      by_contra hne
+      apply absurd hlt
+      unfold corrI at hne
+      unfold jdnI
+      by_cases hm : m ≤ 2
+      · simp only [hm, if_true] at hne ⊢
+        cases hj : isJulianI (y - 1) (m + 12) d
+        · simp only [Bool.false_eq_true, if_false]
+          have hj' : ¬ (y - 1 < 1582 ∨ (y - 1 = 1582 ∧ m + 12 < 10) ∨ (y - 1 = 1582 ∧ m + 12 = 10 ∧ d < 5)) := by
+            intro hh; simp [isJulianI] at hj; omega
+          have hY : 1461 * (y - 1 + 4716) / 4 = 365 * (y - 1 + 4716) + (y - 1 + 4716) / 4 := by omega
+          have h4 : (y - 1 + 4716) / 4 = 25 * ((y - 1) / 100) + 1179 + ((y - 1) % 100) / 4 := by omega
+          have hT : 397 ≤ 306001 * (m + 12 + 1) / 10000 := by omega
+          omega
+        · simp [hj] at hne
+      · simp only [hm, if_false] at hne ⊢
+        cases hj : isJulianI y m d
+        · simp only [Bool.false_eq_true, if_false]
+          have hj' : ¬ (y < 1582 ∨ (y = 1582 ∧ m < 10) ∨ (y = 1582 ∧ m = 10 ∧ d < 5)) := by
+            intro hh; simp [isJulianI] at hj; omega
+          have hY : 1461 * (y + 4716) / 4 = 365 * (y + 4716) + (y + 4716) / 4 := by omega
+          have h4 : (y + 4716) / 4 = 25 * (y / 100) + 1179 + (y % 100) / 4 := by omega
+          have hT : 122 ≤ 306001 * (m + 1) / 10000 := by omega
+          by_cases hy : y = 1582
+          · subst hy
+            have hm10 : 10 ≤ m := by omega
+            have hT2 : m = 10 → 306001 * (m + 1) / 10000 = 336 := by intro h; subst h; decide
+            have hT3 : 11 ≤ m → 367 ≤ 306001 * (m + 1) / 10000 := by intro h; omega
+            omega
+          · omega
+        · simp [hj] at hne
+    omega
+  · rfl
 
 /-- Integer form of the second half of `get_date` (from the calendar-corrected day number `a`). -/
 def invA (a : Int) : Int × Int × Int :=
